@@ -1,6 +1,7 @@
 import Proofs.Lemmas.Arith
 import Proofs.Lemmas.Lists
 import Proofs.Lemmas.Mosaic
+import Proofs.Lemmas.Elev
 import Proofs.Audit
 
 /-!
@@ -189,6 +190,79 @@ theorem C20_download_once (cache reqs : List ℕ) :
       · simp only [i3 n, List.mem_cons]
         tauto
 
+/-! ## the mosaic -/
+
+/-- **Pixel identity.**  For every valid rectangle — over one, two, four or any number of tiles —
+and every tile content `pix`, `elevation` succeeds and returns the native grids together with an
+array `E` (row-major, `lats.length × lons.length`) such that for every `i`, `j` there is a tile
+`t` of the table and a pixel `(p, q)` of it with
+
+* the pixel is centred exactly at `(lats[i], lons[j])` (`get_grids` of the tile),
+* `E[i, j]` is the value stored in that pixel,
+* `t` is the **only** tile of the table whose half-open rectangle contains `(lats[i], lons[j])`
+  (so nothing is filled from a wrong tile, no row / column is duplicated or dropped at a border:
+  source and destination masks select the same lattice cells in the same order). -/
+theorem C20_pixel_identity (pix : Tile → ℕ → ℕ → ℤ) (r : Rect) (hv : Valid r) :
+    ∃ E : Array ℤ,
+      elevation pix r = .ok ((nativeGrids r).1, (nativeGrids r).2, E) ∧
+      E.size = (nativeGrids r).1.length * (nativeGrids r).2.length ∧
+      ∀ i (hi : i < (nativeGrids r).1.length) j (hj : j < (nativeGrids r).2.length),
+        ∃ t ∈ tiles, ∃ (p q : ℕ) (hp : p < (tileLats t).length) (hq : q < (tileLons t).length),
+          (tileLats t)[p] = (nativeGrids r).1[i] ∧ (tileLons t)[q] = (nativeGrids r).2[j] ∧
+          E[i * (nativeGrids r).2.length + j]? = some (pix t p q) ∧
+          ∀ t' ∈ tiles, ((t'.latMin : ℚ) ≤ (nativeGrids r).1[i] ∧ (nativeGrids r).1[i] < t'.latMax ∧
+              (t'.lonMin : ℚ) ≤ (nativeGrids r).2[j] ∧ (nativeGrids r).2[j] < t'.lonMax) ↔ t' = t := by
+  obtain ⟨E, h1, h2, h3⟩ := elevation_spec pix r hv
+  refine ⟨E, h1, h2, ?_⟩
+  intro i hi j hj
+  obtain ⟨t, htm, hin, hE⟩ := h3 i hi j hj
+  have ht : t ∈ tiles := by unfold getTiles at htm; exact (List.mem_filter.mp htm).1
+  obtain ⟨f1, f2, -⟩ := tiles_facts t ht
+  have hlat : (nativeGrids r).1[i] = rowCentre (rF r - 1 + i + 1) := by
+    simp only [nativeGrids_eq, List.getElem_map, getElem_intRange]
+    congr 1; ring
+  have hlon : (nativeGrids r).2[j] = colCentre (cF r + j) := by
+    simp only [nativeGrids_eq, List.getElem_map, getElem_intRange]
+  obtain ⟨i1, i2, i3, i4⟩ := hin
+  have hp : (rF r - 1 + i - rowOff t).toNat < (tileLats t).length := by
+    rw [tileLats_eq t f1]; simp only [List.length_map, List.length_range, tileH]; omega
+  have hq : (cF r + j - colOff t).toNat < (tileLons t).length := by
+    rw [tileLons_eq t f2]; simp only [List.length_map, List.length_range, tileW]; omega
+  refine ⟨t, ht, _, _, hp, hq, ?_, ?_, hE, ?_⟩
+  · rw [hlat]
+    simp only [tileLats_eq t f1, List.getElem_map, List.getElem_range, rowCentre, dlat_eq]
+    have c := rowOff_cast t
+    have : (((rF r - 1 + i - rowOff t).toNat : ℤ) : ℚ) = ((rF r - 1 + i - rowOff t : ℤ) : ℚ) := by
+      congr 1; omega
+    rw [Int.cast_natCast] at this
+    rw [this]; push_cast; rw [c]; ring
+  · rw [hlon]
+    simp only [tileLons_eq t f2, List.getElem_map, List.getElem_range, colCentre, dlon_eq]
+    have c := colOff_cast t
+    have : (((cF r + j - colOff t).toNat : ℤ) : ℚ) = ((cF r + j - colOff t : ℤ) : ℚ) := by
+      congr 1; omega
+    rw [Int.cast_natCast] at this
+    rw [this]; push_cast; rw [c]; ring
+  · intro t' ht'
+    rw [hlat, hlon, centre_in_tile_iff t' ht']
+    constructor
+    · intro hin'
+      by_contra hne
+      exact inTile_disjoint ht' ht hne _ _ ⟨hin', ⟨i1, i2, i3, i4⟩⟩
+    · rintro rfl; exact ⟨i1, i2, i3, i4⟩
+
+/-- The tiles consulted for the block are exactly those whose interior meets it (`get_tiles` is
+applied to the block's own bounds), each once. -/
+theorem C20_block_tiles (r : Rect) (hv : Valid r) :
+    ∀ t, t ∈ getTiles (blockRect (rF r) (rL r) (cF r) (cL r)) ↔
+      t ∈ tiles ∧ InteriorsMeet (blockRect (rF r) (rL r) (cF r) (cL r)) t := by
+  have s := grids_shape r hv
+  have c0 : (0 : ℚ) ≤ (cF r : ℤ) := by exact_mod_cast s.cF_nonneg
+  have c1 : ((cL r : ℤ) : ℚ) ≤ 43199 := by exact_mod_cast s.cL_le
+  have c2 : ((cF r : ℤ) : ℚ) ≤ (cL r : ℤ) := by exact_mod_cast s.cols_le
+  exact (C20_tiles_spec _ (by simp only [blockRect]; linarith) (by simp only [blockRect]; linarith)
+    (by simp only [blockRect]; linarith) (by simp only [blockRect]; linarith)).1
+
 /-! ## non-vacuity of the easy part -/
 
 /-- a rectangle straddling the corner of four tiles at 40° N, 140° W, unaligned with the grid -/
@@ -198,7 +272,13 @@ example : Valid rect4 := by constructor <;> norm_num [rect4]
 #guard (getTiles rect4).length = 4
 #guard (nativeGrids rect4).1.length = 4 ∧ (nativeGrids rect4).2.length = 4
 #guard (runRequests [1, 2] [3, 1, 3, 4, 2]).2 = [3, 4]
+-- the mosaic over the four tiles equals the synthetic pixel formula at the global lattice cell
+#guard (match elevation synthPix rect4 with
+  | .ok (lats, lons, E) => lats.length = 4 ∧ lons.length = 4 ∧
+      E.toList = (List.range 4).flatMap (fun i => (List.range 4).map (fun j =>
+        (((5998 + i : ℕ) : ℤ) * 7 + ((4798 + j : ℕ) : ℤ) * 13) % 30000))
+  | .error _ => False)
 #guard nativeGrids (boundsRect ⟨-10, 20, 40, 60⟩) = (tileLats ⟨-10, 20, 40, 60⟩, tileLons ⟨-10, 20, 40, 60⟩)
 
 assert_axioms C20_grid_consecutive C20_nonempty C20_covers C20_tight C20_tiles_spec
-  C20_native_eq_grids C20_download_iff_not_cached C20_download_once
+  C20_native_eq_grids C20_download_iff_not_cached C20_download_once C20_pixel_identity C20_block_tiles
